@@ -19,10 +19,10 @@ theorem plainU8_add1 (prof : Profile) (n : Nat) (h : n < 255) : plainU8 prof ((n
 
 theorem approx_loop_eq (prof : Profile) (d : Int) : ∀ (F k : Nat) (coeff rem : Int) (n magn : Nat),
     n + k = 18 → k < F → magn < 256 →
-    projLoop <$> Gen.K.approx_rational.loop1 prof d F rem n magn coeff = approxLoop prof d k coeff rem n magn
+    projLoop <$> Gen.K.approx_rational_loop1 prof d F rem n magn coeff = approxLoop prof d k coeff rem n magn
   | 0, k, _, _, _, _, _, h, _ => absurd h (Nat.not_lt_zero _)
   | F + 1, k, coeff, rem, n, magn, hk, hF, hm => by
-    unfold Gen.K.approx_rational.loop1
+    unfold Gen.K.approx_rational_loop1
     have h37 : plainU8 prof ((Gen.FROM_FLT_MAGN_I128_MAX : Int) - 1) = .ok 37 := by
       unfold Gen.FROM_FLT_MAGN_I128_MAX plainU8; rfl
     cases k with
